@@ -39,7 +39,9 @@ RULE = (
     "below object / the same bases / a slotted or dict attrs class -- harness-only: the model is a function of the class alone); streams: valid (80%), K05a shapes (custom definer first, 8%), malformed "
     "(frozen + on_setattr / custom __setattr__, incl. the init=False-without-default field, 12%). Per hierarchy several "
     "operation histories of length 1..6 (quick) / 1..8 (thorough) over {setattr, delattr, augmented assignment} x {every "
-    "field (new value, the very object it holds, an equal object), unknown public/private name, the hash-cache name, the five "
+    "field (new value, the very object it holds, an equal copy; values are strings or -- for arguments of fields without converter -- "
+    "labelled list/dict/set objects, i.e. mutable and unhashable; augmented assignment is a real `+=` / `|=` statement that "
+    "works in place on those), a class-level mutable non-field on plain subclasses, unknown public/private name, the hash-cache name, the five "
     "BaseException bookkeeping names, __dict__/__class__} + {hash, copy, "
     "deepcopy, pickle protocols 0..5, evolve (valid and unknown changes); every returned object is compared field by field and, "
     "when hashable through a generated __hash__, against a freshly built twin (hash equality + dict lookup), with histories "
@@ -55,7 +57,7 @@ ASSUMPTIONS = [
     "expected field lists per class are computed from the specification as in C01 (C07 checks collection)",
     "which state protocol (object's / attrs-generated pair of the initializer's class / slots without __getstate__) the leaf resolves is PREDICTED from the specification by the model (getstate_setstate argument, slots, or inheriting a generated pair: attrs then generates an own pair) and never read off the real class, so mixed slotted/dict frozen chains are copied and pickled under every protocol and compared field by field (plus: the copy hashes); copy operations are only left out for exception roots and for an explicit getstate_setstate=False on a class below a generated pair (the user's opt-out); hash operations only where the leaf resolves the identity hash or the __hash__ generated for the class that provides the initializer (K1 kept out)",
     "what type(inst).__setattr__/__delattr__ resolve to (frozen / object's / hook closure / body-defined) is observed and compared with the class logic of the model",
-    "values are strings, callbacks symbolic (initbuild)",
+    "values are symbolic: strings, or labelled list/dict/set objects for arguments of fields without converter (harness-only: the model sees the label; the binding is observed, not the content of a mutable value); callbacks symbolic (initbuild)",
 ]
 LEVEL_TEXT = (
     "Lean theorems (Properties/C05.lean) about an executable model of _frozen_setattrs/_frozen_delattrs (bookkeeping tables "
@@ -90,6 +92,30 @@ def _dummy_init():
             "call": {"pos": [], "kw": []}, "isDefine": False, "clsOnSet": "unset"}
 
 
+def _has_containers(ctor):
+    return any(is_container_token(t) for t in ctor["pos"]) or any(is_container_token(t) for _, t in ctor["kw"])
+
+
+def containerise(rng, hspec, ctor):
+    """the VALUE dimension: arguments of fields without converter become list / dict / set objects (harness-only;
+    the model sees the token)"""
+    try:
+        fields = [f for f in ib.expected_fields(hspec) if f.get("init", True)]
+    except Exception:  # noqa: BLE001
+        return ctor
+    pos_params = [f for f in fields if not f.get("kw_only")]
+    by_alias = {(f.get("alias") or ib.default_alias(f["name"])): f for f in fields}
+
+    def conv(f, tok):
+        if f is None or f.get("converter") or rng.random() < 0.4:
+            return tok
+        return rng.choice(["L.", "L.", "D.", "S."]) + tok
+
+    pos = [conv(pos_params[i] if i < len(pos_params) else None, t) for i, t in enumerate(ctor["pos"])]
+    kw = [[k, conv(by_alias.get(k), t)] for k, t in ctor["kw"]]
+    return {"pos": pos, "kw": kw}
+
+
 def make_case(hspec, ctor, ops, stream="valid"):
     tbl = cb.table(hspec)
     built = cb.build(hspec)
@@ -114,8 +140,9 @@ def make_case(hspec, ctor, ops, stream="valid"):
         # predicted from the specification, never read off the real class: a class that resolves another
         # state pair than predicted must show up as a wrong copy, not as a silently skipped operation
         "gs": cb.predicted_gs(tbl, len(built["classes"]) - 1 - built["classes"].index(owner), cb.any_slots(leaf)),
-        "hashNames": hnames,
-        "hashable": hashable,
+        # list / dict / set field values make hash() a TypeError: no hash operations, no twin hashing then
+        "hashNames": None if _has_containers(ctor) else hnames,
+        "hashable": hashable and not _has_containers(ctor),
         "leafFrozen": leaf.__setattr__ is _frozen_setattrs and leaf.__delattr__ is _frozen_delattrs,
     })
     return case
@@ -203,7 +230,7 @@ def _decorate_hspec(rng, h, stream):
             if cs.get("api") in ("attr.s", "these") and cs.get("auto_detect") is None and rng.random() < 0.4:
                 cs["auto_detect"] = True      # own methods of the earlier classes are then looked at
     ntail = rng.choice([0, 0, 0, 1, 1, 2])
-    h["tail"] = [{"name": f"T{i}", "plain_slots": rng.random() < 0.4} for i in range(ntail)]
+    h["tail"] = [{"name": f"T{i}", "plain_slots": rng.random() < 0.4, "klist": rng.random() < 0.5} for i in range(ntail)]
     # mixins
     for cs in h["classes"] + h["tail"]:
         if rng.random() < 0.18:
@@ -287,6 +314,7 @@ def _op_pool(case, rng):
     exc = case["excRoot"]
     names = fields * 3 + UNKNOWN + [CACHE] + BOOK
     pool = []
+    klist = any(t.get("klist") for t in case["hspec"].get("tail", []))
     if not case.get("leafFrozen", True):
         # K05a shapes (a custom __setattr__/__delattr__ comes first): plain mutation attempts only
         names = fields * 3 + UNKNOWN
@@ -305,13 +333,16 @@ def _op_pool(case, rng):
         k = rng.choice(["set", "set", "del", "aug"])
         if k == "set":
             v = rng.choice(BOOK_VALUES[n]) if n in BOOK else val()
-            if n in fields and rng.random() < 0.3:
+            if n in fields and rng.random() < 0.4:
                 v = rng.choice(SPECIAL_VALUES)      # the very object / an equal object the attribute already holds
             pool.append({"set": {"name": n, "v": v}})
         elif k == "del":
             pool.append({"del": {"name": n}})
         elif n not in BOOK and n != CACHE:
             pool.append({"aug": {"name": n, "v": rng.choice(["+a", "+a", ""])}})
+    if klist and case.get("leafFrozen", True):
+        # a NON-field whose current value is a mutable class-level object: re-binding it on the instance is a set attempt too
+        pool.append(rng.choice([{"set": {"name": "klist", "v": "@same"}}, {"set": {"name": "klist", "v": "@same"}}, {"del": {"name": "klist"}}]))
     # the instance's own machinery attributes
     pool.append(rng.choice([{"set": {"name": "__class__", "v": "@cls"}}, {"set": {"name": "__dict__", "v": "@emptydict"}},
                             {"del": {"name": "__dict__"}}, {"del": {"name": "__class__"}}]))
@@ -364,6 +395,8 @@ def gen_cases(tier, rng):
             h = _decorate_hspec(rng, h0, "valid")
             stream = "valid"
         ctor = ib.gen_call(rng, h, malformed=0.0)
+        if rng.random() < 0.35:
+            ctor = containerise(rng, h, ctor)
         try:
             base = make_case(h, ctor, [], stream)
         except Exception as e:  # noqa: BLE001
@@ -385,9 +418,47 @@ def _tb_object():
         return e.__traceback__
 
 
+class LList(list):
+    """a mutable, unhashable value that stands for the token in `.label` whatever it contains later"""
+
+
+class LDict(dict):
+    pass
+
+
+class LSet(set):
+    pass
+
+
+_KINDS = {"L.": LList, "D.": LDict, "S.": LSet}
+CONTAINERS = (LList, LDict, LSet)
+
+
+def is_container_token(tok):
+    return isinstance(tok, str) and tok[:2] in _KINDS
+
+
+def _mat(tok):
+    """materialise a call token: `L.t1` / `D.t1` / `S.t1` become a fresh list / dict / set labelled with the token"""
+    if not is_container_token(tok):
+        return tok
+    kind = _KINDS[tok[:2]]
+    obj = kind([tok]) if kind is not LDict else kind({tok: 1})
+    obj.label = tok
+    return obj
+
+
+def _equal_copy(cur):
+    new = type(cur)(cur)
+    new.label = cur.label
+    return new
+
+
 def _canon(v, toks):
     if v is None:
         return "None"
+    if isinstance(v, CONTAINERS):
+        return getattr(v, "label", "other:unlabelled")      # the binding is observed, not the content
     if isinstance(v, str):
         return v
     if isinstance(v, bool):
@@ -441,10 +512,23 @@ _AUG_CODE: dict = {}
 
 
 def _aug(inst, name, v):
-    code = _AUG_CODE.get(name)
+    """a real augmented-assignment STATEMENT on the attribute: `+=` for str / list, `|=` for dict / set (for
+    mutable values the operator works in place and then re-binds the very same object)"""
+    try:
+        cur = getattr(inst, name)
+    except Exception:  # noqa: BLE001
+        cur = None
+    opnd, sym = v, "+="
+    if isinstance(cur, LList):
+        opnd = [v] if v else []
+    elif isinstance(cur, LDict):
+        opnd, sym = ({v: 1} if v else {}), "|="
+    elif isinstance(cur, LSet):
+        opnd, sym = ({v} if v else set()), "|="
+    code = _AUG_CODE.get((name, sym))
     if code is None:
-        code = _AUG_CODE[name] = compile(f"o.{name} += v", "<c05 aug>", "exec")
-    exec(code, {"o": inst, "v": v})
+        code = _AUG_CODE[(name, sym)] = compile(f"o.{name} {sym} v", "<c05 aug>", "exec")
+    exec(code, {"o": inst, "v": opnd})
 
 
 def _book_value(name, v, toks):
@@ -468,10 +552,29 @@ def _plain_value(inst, name, v):
             cur = getattr(inst, name)
         except Exception:  # noqa: BLE001
             return "s1"
-        if v == "@same" or not isinstance(cur, str):
+        if v == "@same":
+            return cur
+        if isinstance(cur, CONTAINERS):
+            return _equal_copy(cur)
+        if not isinstance(cur, str):
             return cur
         return cur[:1] + cur[1:] if len(cur) > 1 else cur
     return v
+
+
+def _read_values(inst, names):
+    vals = []
+    for n in names:
+        try:
+            v = getattr(inst, n)
+        except AttributeError:
+            vals.append([n, None])
+            continue
+        except BaseException as e:  # noqa: BLE001
+            vals.append([n, "exc:" + common.exc_kind(e)])
+            continue
+        vals.append([n, v.label if isinstance(v, CONTAINERS) else ib._canon(v)])
+    return vals
 
 
 def _twin(res, names):
@@ -494,7 +597,7 @@ def _twin(res, names):
 
 def _result(res, inst, names, hashed=False):
     ib.SELF[0] = res
-    vals = ib.read_values(res, names)
+    vals = _read_values(res, names)
     flags = []
     if hashed:
         # the returned object must hash through the generated __hash__ (cache carried over or re-created) ...
@@ -635,7 +738,7 @@ def observe(case):
     ctor = None
     try:
         try:
-            getattr(leaf, init_name)(inst, *call["pos"], **dict(call["kw"]))
+            getattr(leaf, init_name)(inst, *[_mat(t) for t in call["pos"]], **{k: _mat(t) for k, t in call["kw"]})
         except BaseException as e:  # noqa: BLE001
             ctor = ib.exc_enum(e)
         del ib.TRACE[:]
